@@ -342,8 +342,6 @@ pub fn main(entries: &[Entry]) {
         checks += spec.len() as u64;
         if !wire_is_spec && !d2 {
             drift.add("the wire ids of a derived type are not the specification's assignment (layout and wire agree)", case());
-        } else if !wire_is_spec && corrupted.contains(&n) {
-            drift.add("the wire ids of a derived type are not the specification's assignment", case());
         }
         agreeing += (wire_is_spec && !d2) as u64;
         conforming.push(wire_is_spec);
